@@ -140,6 +140,10 @@ def unconstrained(data: bytes) -> bool:
     if len(data) > P['L']:
         return True
     prefix = bytes.fromhex(P.get('PREFIX', ''))
+    if 'SUFFIX' in P:
+        if len(data) != P['L']:
+            return True     # the lengths inside the prefix count on a tail of exactly this size
+        return _judge(_get_class(), prefix + data + bytes.fromhex(P['SUFFIX']))
     return _judge(_get_class(), prefix + data)
 
 
